@@ -96,6 +96,11 @@ def checkFm (strsHex qHex pHex sHex n el ml bwt occ alpha ss sampled samp loc ab
   let modSub := B.map d.locateSubstr
   if modSub != implSub.map some then "V model-locateSubstr-differs-from-code" else
   if modSub != (B.map fun p => some (Spec.substrIds S p)) then "V model-locateSubstr-differs-from-spec" else
+  -- the duplicate-skipping string iterator of `extractSubstr` on the exported index
+  let specXs := B.map fun p =>
+    let l := (Spec.substrIds S p).filterMap fun id => (Spec.extract S id).map symsOf
+    some (if l.isEmpty then none else some l)
+  if B.map d.extractSubstr != specXs then "V model-extractSubstr-differs-from-spec" else
   "V ok"
 where
   splitOnComma (s : String) : List String := if s == "-" then [] else s.splitOn ","
